@@ -10,7 +10,15 @@ from simkit import loop as L
 from simkit import recfmt, scenario
 
 KINDS = ("producer", "txn_producer", "group", "simple")
-ENVS = ("healthy", "blackhole", "failover")
+ENVS = ("healthy", "blackhole", "failover", "errors")
+# non-retriable error replies that the clients hand to the application
+USER_ERRORS = {
+    "group": [("JoinGroup", 30), ("JoinGroup", 23), ("FindCoordinator", 30), ("OffsetCommit", 30),
+              ("Heartbeat", 30), ("SyncGroup", 30), ("OffsetFetch", 30), ("Fetch", 29)],
+    "simple": [("Fetch", 29), ("ListOffsets", 29), ("Metadata", 29)],
+    "producer": [("Produce", 29), ("Produce", 10), ("Metadata", 29)],
+    "txn_producer": [("AddPartitionsToTxn", 29), ("Produce", 29), ("EndTxn", 47), ("AddPartitionsToTxn", 53)],
+}
 
 
 def gen_plan(seed, index, tier="quick"):
@@ -61,8 +69,16 @@ def gen_plan(seed, index, tier="quick"):
                 envs.append({"at": at, "do": k, "node": r.randint(1, nbrokers), "d": r.choice([0.2, 1.0, 30.0])})
             else:
                 envs.append({"at": at, "do": k, "d": r.choice([0.2, 1.0])})
+    faults = []
+    if env == "errors":
+        for _ in range(r.randint(1, 2)):
+            api, code = r.choice(USER_ERRORS[kind])
+            faults.append({"on": {"request": api, "nth": r.randint(1, 6)}, "do": {"reply_error": code}})
     envs.sort(key=lambda e: e["at"])
-    return {"format": 1, "prop": "C19", "engine": "stop", "seed": scenario.subseed(seed, "C19", index),
+    return {"format": 1, "prop": "C19", "faults": faults, "max_iters": 4_000_000,
+            # an application that is not polling when stop() is called (an error handed to
+            # the user may then still be unconsumed)
+            "idle_pollers": kind in ("group", "simple") and r.random() < 0.4, "engine": "stop", "seed": scenario.subseed(seed, "C19", index),
             "index": index, "kind": kind, "env_kind": env, "cluster": cluster, "kw": kw, "env": envs,
             "horizon": horizon, "static": kind == "group" and r.random() < 0.15,
             "second_member": kind == "group" and r.random() < 0.5,
@@ -223,7 +239,14 @@ def execute_one(plan):
             await asyncio.sleep(0.02)
 
     async def consumer_work(c, how):
+        polls = 0
         while True:
+            if plan.get("idle_pollers") and polls >= 3:
+                # the application went on to do something else
+                while not obs.get("stopping"):
+                    await asyncio.sleep(0.05)
+                return
+            polls += 1
             try:
                 if how == "getone":
                     await c.getone()
